@@ -121,7 +121,7 @@ fn cow_real_history<K2: Kind<P = Dt>>() {
 h!(q_real_history_offset, cow_real_history::<OffsetArc<Dt>>());
 h!(r0_real_history_raw, cow_real_history::<Raw<Dt>>());
 h!(q_real_history_union2, cow_real_history::<U2<Dt>>());
-h!(r2_real_history_swap, cow_real_history::<Swp<Dt>>());
+h!(q_real_history_swap, cow_real_history::<Swp<Dt>>());
 // borrow-style operations do not make a sole owner look shared: make_mut afterwards stays in place, no Clone
 h!(q_borrows_then_in_place, {
     let v0: u8 = kani::any();
